@@ -1,14 +1,14 @@
 SPECIFICATION Spec
 CONSTANTS
-  DeepKinds <- MC_Deep
-  ShallowKinds <- MC_Shallow
+  DeepKinds <- MC_MediaDeep
+  ShallowKinds <- MC_MediaShallow
   StaticKinds <- MC_Static
-  Depth = 4
-  ShallowDepth = 3
-  Media = {"mem"}
+  Depth = 2
+  ShallowDepth = 2
+  Media = {"mem", "reader", "file", "alias", "over"}
   Sizes = {"small"}
   BigSaves = 1
-  Variant = "drop_hist"
+  Variant = "keep_tail"
 INVARIANT TypeOK
 INVARIANT Stutter
 INVARIANT Idempotent
